@@ -157,6 +157,9 @@ pub enum Op {
     /// an entry call whose closure panics as soon as it is called (caught): kind 0 `entry(k).or_insert_with`,
     /// 1 `entry(k).and_modify`, 2 raw `or_insert_with`, 3 `entry(k).or_insert_with_key`, 4 raw `and_modify`
     FEntry { k: u64, kind: u8 },
+    /// a call under an `Eq` that panics on its `fuse`-th invocation inside the call (caught): kind 0 insert, 1 remove,
+    /// 2 get, 3 entry(k).or_insert(v), 4 get_mut
+    FEq { kind: u8, k: u64, v: u64, fuse: usize },
     /// `drain_filter` pulled to the end, its closure panicking on entering its `fuse`-th call (caught)
     FDrainFilter { p: Pred, fuse: usize },
     Drop,
@@ -212,6 +215,7 @@ pub fn fmt_op(mid: usize, op: &Op) -> String {
         Op::FRetain { p, fuse } => format!("fretain {mid} {} {fuse}", p.fmt()),
         Op::FReplace { k } => format!("freplace {mid} {k}"),
         Op::FEntry { k, kind } => format!("fentry {mid} {k} {kind}"),
+        Op::FEq { kind, k, v, fuse } => format!("feq {mid} {kind} {k} {v} {fuse}"),
         Op::FDrainFilter { p, fuse } => format!("fdrainfilter {mid} {} {fuse}", p.fmt()),
         Op::Drop => format!("drop {mid}"),
     }
@@ -268,6 +272,7 @@ pub fn parse_op(line: &str) -> Option<Line> {
         "fretain" => Op::FRetain { p: Pred::parse(t.get(2)?)?, fuse: z(3)? },
         "freplace" => Op::FReplace { k: u(2)? },
         "fentry" => Op::FEntry { k: u(2)?, kind: u(3)? as u8 },
+        "feq" => Op::FEq { kind: u(2)? as u8, k: u(3)?, v: u(4)?, fuse: z(5)? },
         "fdrainfilter" => Op::FDrainFilter { p: Pred::parse(t.get(2)?)?, fuse: z(3)? },
         "drop" => Op::Drop,
         _ => return None,
@@ -1415,6 +1420,83 @@ impl World {
                     self.fail(&["C07"], format!("replace_entry_with on key {k} (present = {was}): closure {}", if was { "was not called" } else { "was called" }));
                 }
             }
+            Op::FEq { kind, k, v, fuse } => {
+                loc_class = class_of(self, *k);
+                let (kind, k, v) = (*kind, *k, *v);
+                let by_value = kind == 0 || kind == 3;
+                let key = if by_value { Some(Key::new(k)) } else { None };
+                let val = if by_value { Some(Val::new(v)) } else { None };
+                let (kid, vid) = (key.as_ref().map_or(0, |x| x.id), val.as_ref().map_or(0, |x| x.id));
+                head = format!("feq {mid} {kind} {k} {kid} {v} {vid}");
+                let m = self.maps[mid].as_mut().unwrap();
+                arm_fuse(*fuse as i64, EQ);
+                // what the call hands back is the caller's: it is dropped after the window, not inside it
+                let mut handed_val: Option<Val> = None;
+                let mut handed_pair: Option<(Key, Val)> = None;
+                let cr = windowed(|| match kind {
+                    0 => {
+                        handed_val = m.insert(key.unwrap(), val.unwrap());
+                    }
+                    1 => {
+                        handed_pair = m.remove_entry(&Q(k));
+                    }
+                    3 => {
+                        m.entry(key.unwrap()).or_insert(val.unwrap());
+                    }
+                    4 => {
+                        if let Some(x) = m.get_mut(&Q(k)) {
+                            x.v += 1;
+                        }
+                    }
+                    _ => {
+                        let _ = m.get(&Q(k));
+                    }
+                });
+                let fired = fuse_fired();
+                disarm_fuse();
+                survives = true;
+                orc.push(format!("fired={}", fired as u8));
+                let _ = take_cr!(cr);
+                drop(handed_val);
+                drop(handed_pair);
+                if fired != panic_kind.is_some() {
+                    self.fail(&["C07"], format!("feq: fuse fired = {fired} but the call {}", if panic_kind.is_some() { "panicked" } else { "returned" }));
+                }
+                if !fired {
+                    // the ordinary call happened: keep the reference in step
+                    let r = self.refs[mid].as_mut().unwrap();
+                    match kind {
+                        0 => match r.get_mut(&k) {
+                            Some(e) => {
+                                e.1 = v;
+                                e.2 = vid;
+                            }
+                            None => {
+                                r.insert(k, (kid, v, vid));
+                                key_adding = true;
+                            }
+                        },
+                        1 => {
+                            r.remove(&k);
+                        }
+                        3 => {
+                            if !r.contains_key(&k) {
+                                r.insert(k, (kid, v, vid));
+                                key_adding = true;
+                            }
+                        }
+                        4 => {
+                            if let Some(e) = r.get_mut(&k) {
+                                e.1 += 1;
+                            }
+                        }
+                        _ => {}
+                    }
+                    if kind == 0 && loc_class.starts_with("old") {
+                        key_adding = true;
+                    }
+                }
+            }
             Op::FEntry { k, kind } => {
                 loc_class = class_of(self, *k);
                 let raw = *kind == 2 || *kind == 4;
@@ -1515,7 +1597,7 @@ impl World {
         if let (Some(po), Some(m)) = (&post, self.maps[mid].as_ref()) {
             // a growth happened iff this (inserting / reserving) call allocated a table while the map
             // held elements: they were all parked, in the order hashbrown iterates them
-            let new_split = matches!(op, Op::Insert { .. } | Op::FInsert { .. } | Op::Entry { .. } | Op::Reserve { .. } | Op::TryReserve { .. })
+            let new_split = matches!(op, Op::Insert { .. } | Op::FInsert { .. } | Op::FEq { .. } | Op::Entry { .. } | Op::Reserve { .. } | Op::TryReserve { .. })
                 && da >= 1
                 && pre.as_ref().map_or(false, |p| p.len > 0);
             let _ = po;
@@ -1526,7 +1608,7 @@ impl World {
                 // the old table were moved first (their relative order is immaterial)
                 let mut all: Vec<u64> = match op {
                     // the key being inserted was absent when the table was parked (else: no insertion)
-                    Op::Insert { k, .. } | Op::FInsert { k, .. } | Op::Entry { k, .. } => self.refs[mid].as_ref().unwrap().keys().copied().filter(|x| x != k).collect(),
+                    Op::Insert { k, .. } | Op::FInsert { k, .. } | Op::FEq { k, .. } | Op::Entry { k, .. } => self.refs[mid].as_ref().unwrap().keys().copied().filter(|x| x != k).collect(),
                     Op::Extend { .. } => vec![],
                     _ => self.refs[mid].as_ref().unwrap().keys().copied().collect(),
                 };
@@ -1630,7 +1712,7 @@ impl World {
                     Op::Clone { .. } | Op::CloneFrom { .. } => &["C11"],
                     Op::Eq { .. } | Op::Get { .. } => &["C14"],
                     Op::Drop | Op::Clear => &["C06"],
-                    Op::FInsert { .. } | Op::FRetain { .. } | Op::FReplace { .. } | Op::FEntry { .. } | Op::FDrainFilter { .. } => &["C07"],
+                    Op::FInsert { .. } | Op::FRetain { .. } | Op::FReplace { .. } | Op::FEntry { .. } | Op::FEq { .. } | Op::FDrainFilter { .. } => &["C07"],
                     Op::FillProbe { .. } => &["C04"],
                     Op::Insert { .. } | Op::Extend { .. } | Op::GetMut { .. } | Op::Remove { .. } => &["C02", "C03"],
                     _ => &[],
